@@ -288,7 +288,10 @@ class IndentAndNameChecker(BaseChecker):
         # (a quoted literal may contain escaped quotes: "say \"hi\"")
         symbol = r"\w+|\"(?:[^\"\\]|\\.)*\"|'(?:[^'\\]|\\.)*'"
         reg_prompt = re.compile(r"^\".*?\"\s+(?:if)\s+(?P<expression0>.*)$")
-        reg_default = re.compile(r"^(?P<expression0>.*)\s+(?:if)\s+(?P<expression1>.*)$")
+        # (the value may be a quoted literal containing the word "if": the condition starts at an "if" outside quotes)
+        reg_default = re.compile(
+            r"^(?P<expression0>(?:\"(?:[^\"\\]|\\.)*\"|'(?:[^'\\]|\\.)*'|[^\"'])*?)\s+(?:if)\s+(?P<expression1>.*)$"
+        )
         reg_select_imply = re.compile(rf"^(?P<expression0>{symbol})\s+(?:if)\s+(?P<expression1>.*)$")
         reg_range = re.compile(
             rf"^(?P<expression0>{symbol})\s+(?P<expression1>{symbol})\s+(?:if)\s+(?P<expression2>.*)$"
